@@ -1,14 +1,17 @@
 /-
   C03 — parsing is total; bounded recursion.
-  `C03_no_panic` over the whole parser, sufficiency of fuel and depth restoration are in
-  LexprModel/Proofs/Safety.lean and Progress.lean (when present).  Proved here: the depth budget
+  Fully proved in LexprModel/Proofs/Progress.lean (imported here): `C03_fuel`, `C03_fuel_bound`,
+  `C03_fuel_scanners`, `C03_fuel_history` — with the fuel the public entry points pass, no call ever
+  runs out of fuel, so fuel never changes a result ("fails to return" is excluded in the model).
+  `C03_no_panic` over the whole parser and depth restoration: LexprModel/Proofs/Safety.lean (when
+  present).  Proved here: the depth budget
   mechanism itself — charging never underflows while at least one level is left, the last level is
   refused with RecursionLimitExceeded and leaves the budget intact, charge-then-release is the
   identity — and, from the regenerated table, that the deepest accepted nesting on the current
   build is 127 (≥ 100) for every nesting construct.
 -/
-import LexprModel.Parse
 import LexprModel.TablesCheck
+import LexprModel.Proofs.Progress
 namespace Lexpr
 namespace Parse
 
